@@ -198,11 +198,13 @@ type docStruct struct {
 	L []int
 	M map[string]string
 }
+// (collections stay unwrapped: a quantifier does not dereference a pointer to its collection - the model says the same -
+// so *[]int is not a representation of a list as far as any/all are concerned)
 type docStructP struct {
 	N *int
 	S *string
-	L *[]int
-	M *map[string]string
+	L []int
+	M map[string]string
 }
 
 func sameDocument() []interface{} {
@@ -210,24 +212,17 @@ func sameDocument() []interface{} {
 	s := pick(rng, strPool)
 	l := []int{rng.Intn(3), rng.Intn(3)}
 	m := map[string]string{"k": pick(rng, strPool)}
-	var li []interface{}
-	for _, x := range l {
-		li = append(li, x)
-	}
-	mi := map[string]interface{}{}
-	for k, v := range m {
-		mi[k] = v
-	}
+	// (a list of statically typed elements and a []interface{} differ observably: an ill-typed literal is an error for
+	// the former and skips the element for the latter - so the element typing is kept fixed)
 	ds := docStruct{n, s, l, m}
-	var ia interface{} = ds
 	return []interface{}{
 		ds,
 		&ds,
-		&ia,
-		docStructP{&n, &s, &l, &m},
+		docStructP{&n, &s, l, m},
 		map[string]interface{}{"N": n, "S": s, "L": l, "M": m},
-		map[string]interface{}{"N": &n, "S": &s, "L": li, "M": mi},
-		&map[string]interface{}{"N": n, "S": s, "L": &l, "M": &m},
+		map[string]interface{}{"N": &n, "S": &s, "L": l, "M": m},
+		map[string]interface{}{"N": NInt(n), "S": NStr(s), "L": l, "M": m},
+		&map[string]interface{}{"N": n, "S": &s, "L": l, "M": m},
 	}
 }
 
@@ -372,9 +367,9 @@ func countHook(expr string, d interface{}, extra ...bexpr.Option) (string, int64
 
 func runC03(r *Run) {
 	r.Rule = "pairs of sub-expressions (A, B) generated against one datum (matches on resolving / absent / ill-typed selectors, quantified and negated operands; error-producing operands about 25%); predicate on the implementation: the outcome of `(A) and (B)`, `(A) or (B)`, `not (A)`, double negation and both De Morgan rewrites equals the 3x3 outcome table applied to the outcomes of A and B evaluated alone; short-circuit and left-to-right order observed by counting value-hook invocations; composites are also compared with the model; distinct = (outcome A, outcome B, shapes)"
-	n := 3000
+	n := 1500
 	if r.Tier == "thorough" {
-		n = 150000
+		n = 100000
 	}
 	absentPctDefault = 20
 	defer func() { absentPctDefault = 8 }()
@@ -391,7 +386,7 @@ func runC03(r *Run) {
 			r.Count("generator:unparseable")
 			continue
 		}
-		pa, pb := "( "+A+" )", "( "+B+" )"
+		pa, pb := parenIfNeeded(A), parenIfNeeded(B)
 		comps := []struct{ name, expr, want string }{
 			{"and", pa + " and " + pb, table3("and", oa, ob)},
 			{"or", pa + " or " + pb, table3("or", oa, ob)},
@@ -536,4 +531,14 @@ func runC04(r *Run) {
 			r.Sample(map[string]interface{}{"selector": ps, "literal": lit, "datum": describe(d), "outcomes_of_positive_forms": outs})
 		}
 	}
+}
+
+// parenIfNeeded parenthesises an operand unless it is a single match expression.
+func parenIfNeeded(e string) string {
+	if t, ok := parseTree(e); ok {
+		if _, isMatch := t.(*grammar.MatchExpression); isMatch && !strings.HasPrefix(strings.TrimSpace(e), "(") {
+			return e
+		}
+	}
+	return "( " + e + " )"
 }
